@@ -471,7 +471,7 @@ func doWS(c *child, q *WSReq, wait time.Duration) Obs {
 				if g.err != nil {
 					closed = true
 					var ce *websocket.CloseError
-					if errors.As(g.err, &ce) {
+					if errors.As(g.err, &ce) && ce.Code != websocket.CloseAbnormalClosure {
 						o.Close = ce.Code
 						o.Frames = append(o.Frames, fmt.Sprintf("<close %d %q>", ce.Code, ce.Text))
 					} else {
